@@ -401,9 +401,12 @@ CircleOracle(D, k, n, e) ==
   /\ NearCircle(D, k, n, U(e.n[1]), U(e.n[2]), U(e.n[3]))
 C13_OK(ev) ==
   LET D == CircleDrawings[ev.circ.idx] k == ev.circ.k n == ev.circ.n
-      C == { i \in Idx(ev.doc) : IsCircle(ev.doc.elems[i]) } IN
+      \* (extra = 4: unrelated content ABOVE the drawing; only the circles of the drawing's own rows are counted)
+      C == { i \in Idx(ev.doc) : IsCircle(ev.doc.elems[i]) /\ (ev.circ.extra = 4 => ev.doc.elems[i].n[2] >= n * CH * MILLI) } IN
   /\ ev.doc.wf = 1
   /\ IF ev.circ.extra = 3 THEN BesideRows(ev.rows, D, k, n)
+     ELSE IF ev.circ.extra = 4 THEN /\ n >= 1 /\ Len(ev.rows) = n + Len(D) /\ ev.rows[n] = <<>>
+                                    /\ SubSeq(ev.rows, n + 1, n + Len(D)) = SubSeq(PlacedRows(D, k, n), n + 1, n + Len(D))
      ELSE IF ev.circ.extra = 2 THEN ev.rows = WithLabel(PlacedRows(D, k, n), ev.circ.lx, ev.circ.ly, ev.circ.lch)
                                 /\ CellBlank(PlacedRows(D, k, n), ev.circ.lx, ev.circ.ly)
                                 /\ NotTouching(PlacedRows(D, k, n), ev.circ.lx, ev.circ.ly)
@@ -411,6 +414,10 @@ C13_OK(ev) ==
   /\ Cardinality(C) = 1
   /\ CircleOracle(D, k, n, ev.doc.elems[CHOOSE i \in C : TRUE])
   /\ IF ev.circ.extra = 0 THEN Len(ev.doc.elems) = 1 /\ Len(ev.rows) = n + Len(D)
+     ELSE IF ev.circ.extra = 4
+     THEN \* whatever stands above, separated by a blank row, stays above the drawing's first row
+          \A i \in Idx(ev.doc) : i \notin C =>
+               \A j \in 1..Len(ev.doc.elems[i].n) : ev.doc.elems[i].role[j] = 1 => ev.doc.elems[i].n[j] <= n * CH * MILLI     \* (arcs of the tables may reach into the blank row)
      ELSE IF ev.circ.extra = 3
      THEN \* unrelated words (also quoted, also many of them) left and right of the drawing on its own rows: texts only
           \A i \in Idx(ev.doc) : i \notin C => IsText(ev.doc.elems[i])
